@@ -44,10 +44,10 @@ def gen_voices(rng, G, n, tags):
 def gen(seed, index):
     rng = rng_for(PID, seed, index)
     if rng.random() < 0.4:
-        kind = rng.choice(["add", "add", "index", "index", "tag", "tag", "topindex"])
+        kind = rng.choice(["add", "add", "index", "index", "tag", "tag", "topindex", "unmatched_index", "unmatched_tag"])
         unit = rng.choice([2500000000, 10000000000, 5000000000])
         da, db = rng.randint(1, 6) * unit, rng.randint(1, 6) * unit
-        if rng.random() < 0.08:
+        if rng.random() < 0.08 and not kind.startswith("unmatched"):
             da = 0          # an empty first operand (or one holding only zero-length events) that still carries a tempo
 
         def tempo(d):
@@ -122,9 +122,17 @@ def oracle_history(case, io):
     return None
 
 
+def model_case(case):
+    if case[0] == "jointempo" and case[1].startswith("unmatched"):
+        return ["jointempo", "index"] + case[2:]      # the model has no unmatched voices: decided by the oracle alone
+    return case
+
+
 def compare(case, mo, io):
     if case[0] == "hist":
         return compare_history(case, mo, io)
+    if case[0] == "jointempo" and case[1].startswith("unmatched"):
+        return None
     if case[0] == "jointempo":
         if is_err(mo) or is_err(io):
             return None if mo[:2] == io[:2] else f"outcome differs: model {sx.show(mo[:2])} impl {sx.show(io[:2])}"
@@ -154,6 +162,9 @@ def oracle(case, io, mo):
         da = int(case[3])
         for row in grid:
             x, vr, vo = int(row[0]), m2.fl(row[1]), m2.fl(row[2])
+            if abs(vr - vo) > 2e-8 * max(1, abs(vo)) and case[1].startswith("unmatched"):
+                return (f"[F9] a voice that only the second operand has: its tempo at {x} is {vr!r}, the second operand's tempo "
+                        f"shifted by the first operand's duration has {vo!r} (the tempo of the new voice is not shifted)")
             if abs(vr - vo) > 2e-8 * max(1, abs(vo)):
                 side = "first" if x < da else "second"
                 if case[1] == "topindex":
@@ -250,7 +261,7 @@ def nested_sim(t):
 
 
 def known(f, case, msg, io):
-    return (f.get("id") == "F8" and (msg or "").startswith("[F8]")) or (f.get("id") == "F7" and (msg or "").startswith("[F7]"))
+    return any(f.get("id") == k and (msg or "").startswith(f"[{k}]") for k in ("F7", "F8", "F9"))
 
 
 def known_dis(f, case, msg, io, mo):
